@@ -114,6 +114,20 @@ def frameSst : List Bytes → Bytes
   | [] => []
   | f :: fs => frameRec 0xFC f fs
 
+/-! ### text ↔ UTF-16 code units -/
+
+/-- Unicode scalar value -/
+def isScalar (c : Nat) : Prop := c < 0xD800 ∨ (0xE000 ≤ c ∧ c < 0x110000)
+
+instance (c : Nat) : Decidable (isScalar c) := by unfold isScalar; infer_instance
+
+/-- UTF-16 code units of a text (list of scalar values): BMP as is, astral as a surrogate pair -/
+def utf16 : List Nat → List Nat
+  | [] => []
+  | c :: cs =>
+    if c < 0x10000 then c :: utf16 cs
+    else (0xD800 + (c - 0x10000) / 0x400) :: (0xDC00 + (c - 0x10000) % 0x400) :: utf16 cs
+
 /-! ### Legal layouts -/
 
 def noPairSplit (a b : List Nat) : Prop :=
